@@ -250,17 +250,55 @@ fn main() {
     std::panic::set_hook(Box::new(|_| {}));
     let args: Vec<String> = std::env::args().collect();
     let input = std::fs::File::open(&args[1]).expect("cases file");
+    let lines: Vec<String> = std::io::BufReader::new(input).lines().map(|l| l.unwrap()).filter(|l| !l.is_empty()).collect();
+    let threads: usize = std::env::var("IMPLRUN_THREADS").ok().and_then(|s| s.parse().ok()).unwrap_or(1);
+    let run_all = |lines: &[String]| -> Vec<String> {
+        lines
+            .iter()
+            .map(|line| {
+                let mut it = line.splitn(3, '\t');
+                let id = it.next().unwrap();
+                let kind = it.next().unwrap();
+                let text = it.next().unwrap_or("");
+                format!("{{\"id\":{},\"kind\":{},{}}}", jstr(id), jstr(kind), run_case(kind, text))
+            })
+            .collect()
+    };
     let out = std::io::stdout();
     let mut out = std::io::BufWriter::new(out.lock());
-    for line in std::io::BufReader::new(input).lines() {
-        let line = line.unwrap();
-        if line.is_empty() {
-            continue;
+    if threads <= 1 {
+        for l in run_all(&lines) {
+            writeln!(out, "{}", l).unwrap();
         }
-        let mut it = line.splitn(3, '\t');
-        let id = it.next().unwrap();
-        let kind = it.next().unwrap();
-        let text = it.next().unwrap_or("");
-        writeln!(out, "{{\"id\":{},\"kind\":{},{}}}", jstr(id), jstr(kind), run_case(kind, text)).unwrap();
+    } else {
+        // the same inputs expanded concurrently from several threads (each thread in a different rotation):
+        // the result of thread 0 is printed, with a flag telling whether every thread produced the same text
+        let lines = std::sync::Arc::new(lines);
+        let handles: Vec<_> = (0..threads)
+            .map(|t| {
+                let lines = lines.clone();
+                std::thread::spawn(move || {
+                    let n = lines.len();
+                    let mut order: Vec<usize> = (0..n).collect();
+                    order.rotate_left(if n > 0 { (t * 7) % n } else { 0 });
+                    let mut res = vec![String::new(); n];
+                    for i in order {
+                        let line = &lines[i];
+                        let mut it = line.splitn(3, '\t');
+                        let id = it.next().unwrap();
+                        let kind = it.next().unwrap();
+                        let text = it.next().unwrap_or("");
+                        res[i] = format!("{{\"id\":{},\"kind\":{},{}}}", jstr(id), jstr(kind), run_case(kind, text));
+                    }
+                    res
+                })
+            })
+            .collect();
+        let results: Vec<Vec<String>> = handles.into_iter().map(|h| h.join().unwrap()).collect();
+        for i in 0..lines.len() {
+            let same = results.iter().all(|r| r[i] == results[0][i]);
+            let l = &results[0][i];
+            writeln!(out, "{},\"concurrent_equal\":{}}}", &l[..l.len() - 1], same).unwrap();
+        }
     }
 }
